@@ -50,6 +50,28 @@ Theorem C17_route_at_site : forall rs ss p t,
 Proof. exact Route_site_iff. Qed.
 Print Assumptions C17_route_at_site.
 
+(* ---- 2b. the literal reading of the property (RouteSpec: longest PROPER prefix, the empty prefix included).  The code's relation is always
+        contained in it and coincides with it exactly on the trees without a nested site at an empty path; on those the dispatch refines
+        the literal specification.  With such a site the literal specification routes and the code answers 4.04 (open finding
+        C17:empty-prefix-subsite-ignored; formerly observation O2). *)
+Theorem C17_route_within_literal_spec : forall n p t, Route n p t -> RouteSpec n p t.
+Proof. exact Route_RouteSpec. Qed.
+Print Assumptions C17_route_within_literal_spec.
+Theorem C17_literal_spec_iff_route : forall n p t, no_empty_subsite n = true -> (RouteSpec n p t <-> Route n p t).
+Proof. exact RouteSpec_iff_Route. Qed.
+Print Assumptions C17_literal_spec_iff_route.
+Theorem C17_route_refinement_literal_partial : forall n pipe m, uri_path_abbrev m = None -> no_empty_subsite n = true ->
+  forall t, RouteSpec n (uri_path m) t <-> leaf_target (render pipe n m) = Some t.
+Proof. exact render_route_spec. Qed.
+Print Assumptions C17_route_refinement_literal_partial.
+Theorem C17_empty_prefix_subsite_refuted :
+  let r := RHandler 1 (Some []) in
+  let n := NSite [] [([], NSite [(["x"%string], r)] [])] in
+  RouteSpec n ["x"%string] (TgtRes r) /\ render false n (new_request ["x"%string] None) = LeafExn NotFound /\
+  get_resources_as_linkheader n = Some [("//x"%string, [])].
+Proof. exact empty_prefix_subsite_ignored. Qed.
+Print Assumptions C17_empty_prefix_subsite_refuted.
+
 (* ---- 3. the handler sees the path with the matched part removed and the original path, at every nesting depth *)
 Theorem C17_handler_message : forall n pipe m, uri_path_abbrev m = None ->
   match render pipe n m with
@@ -163,17 +185,37 @@ Theorem C17_request_after_remove : forall rs ss p pipe q root', dict_wf rs = tru
 Proof. exact request_after_remove. Qed.
 Print Assumptions C17_request_after_remove.
 
+(* tree level: an add/remove at one site address leaves every site at an unrelated address (neither address a prefix of the other) unchanged;
+   an add at ANY address is served by the next request (in a tree where nothing shadows the path) *)
+Theorem C17_update_frame : forall addr f n n' addr', update_at addr f n = Some (Ok n') ->
+  addr_prefix addr addr' = false -> addr_prefix addr' addr = false -> site_at addr' n' = site_at addr' n.
+Proof. exact update_frame. Qed.
+Print Assumptions C17_update_frame.
+Theorem C17_add_remove_frame_in_histories : forall root o root' addr', step root o = (root', RDone) ->
+  match o with
+  | OAdd addr _ _ | ORemove addr _ => addr_prefix addr addr' = false /\ addr_prefix addr' addr = false
+  | _ => False
+  end -> site_at addr' root' = site_at addr' root.
+Proof. exact step_add_remove_frame. Qed.
+Print Assumptions C17_add_remove_frame_in_histories.
+Theorem C17_request_after_add_nested : forall root addr p id d root' pipe q,
+  step root (OAdd addr p (TRes (RHandler id d))) = (root', RDone) -> node_wf root' = true -> node_sep false root' = true ->
+  let P := chain_path (addr ++ [p]) in
+  request pipe root' (new_request P None) q = RHandled id [] (Some P) (Ok (uri_segments P)).
+Proof. exact request_after_add_nested. Qed.
+Print Assumptions C17_request_after_add_nested.
+
 (* ---- 5. the listing names exactly the registered resources that do not hide themselves, with full hrefs through nested sites *)
 Theorem C17_listing_exact : forall n ls, get_resources_as_linkheader n = Some ls ->
   forall h d, In (h, d) ls <-> Listed n h d.
 Proof. exact linkheader_exact. Qed.
 Print Assumptions C17_listing_exact.
-Theorem C17_wkc_without_filter : forall ls impl, wkc_render_get ls impl None = Ok (ls ++ impl_info_links impl).
+Theorem C17_wkc_without_filter : forall ls impl, wkc_render_get ls impl [] = Ok (ls ++ impl_info_links impl).
 Proof. exact wkc_no_filter. Qed.
 Print Assumptions C17_wkc_without_filter.
-Theorem C17_wkc_query_without_equals : forall ls impl q, split_eq q = None -> wkc_render_get ls impl (Some q) = Ok (ls ++ impl_info_links impl).
-Proof. exact wkc_no_equals. Qed.
-Print Assumptions C17_wkc_query_without_equals.
+Theorem C17_wkc_queries_without_equals : forall ls impl qs, relevant qs = [] -> wkc_render_get ls impl qs = Ok (ls ++ impl_info_links impl).
+Proof. exact wkc_no_relevant. Qed.
+Print Assumptions C17_wkc_queries_without_equals.
 Theorem C17_href_through_nested_site : forall p q, p <> [] -> q <> [] -> (href_of_path p ++ href_of_path q)%string = href_of_path (p ++ q).
 Proof. exact href_of_path_app. Qed.
 Print Assumptions C17_href_through_nested_site.
@@ -243,7 +285,7 @@ Theorem C17_located_default_when_no_route : forall obs root m, uri_path_abbrev m
 Proof. exact located_default. Qed.
 Print Assumptions C17_located_default_when_no_route.
 
-(* ---- 6. one RFC 6690 filter query returns exactly the matching subset — unconditionally (every name, every pattern, every list
+(* ---- 6. ONE RFC 6690 filter criterion returns exactly the matching subset — unconditionally (every name, every pattern, every list
         of links; since the fix f691489 of the four filter defects this check found).  Matches k v l: some candidate x of l for the
         name k (the href; or a value — for rt/if/ct/rel a space-separated item of a value — of an attribute named k, names
         case-insensitive, valueless or missing attributes denote nothing) equals v, or starts with v minus the star. *)
@@ -254,13 +296,50 @@ Theorem C17_wkc_filter_keeps_order : forall k v ls, exists keep : link -> bool,
   filter_links k v ls = filter keep ls /\ forall l, keep l = true <-> Matches k v l.
 Proof. exact filter_links_sublist. Qed.
 Print Assumptions C17_wkc_filter_keeps_order.
-Theorem C17_wkc_filter_applies_to_listing : forall ls impl q k v, split_eq q = Some (k, v) ->
-  wkc_render_get ls impl (Some q) = Ok (filter_links k v (ls ++ impl_info_links impl)).
-Proof. exact wkc_filter_is_filter_links. Qed.
+(* the Uri-Query options of a request: those with "=" are the filter criteria (relevant_in: In (k, v) (relevant qs) <-> some q in qs splits into k=v) *)
+Theorem C17_relevant_queries : forall qs k v, In (k, v) (relevant qs) <-> exists q, In q qs /\ split_eq q = Some (k, v).
+Proof. exact relevant_in. Qed.
+Print Assumptions C17_relevant_queries.
+Theorem C17_wkc_filter_applies_to_listing : forall ls impl qs k v, relevant qs = [(k, v)] ->
+  wkc_render_get ls impl qs = Ok (filter_links k v (ls ++ impl_info_links impl)).
+Proof. exact wkc_single. Qed.
 Print Assumptions C17_wkc_filter_applies_to_listing.
-Theorem C17_wkc_never_fails : forall ls impl q, exists r, wkc_render_get ls impl q = Ok r.
-Proof. exact wkc_total. Qed.
-Print Assumptions C17_wkc_never_fails.
+(* the intended statement for ANY number of criteria is their conjunction.  PARTIAL: proved for requests with at most one criterion; for two
+   or more it is false of the code (open finding C17:filter-several-criteria, refuted witnesses below) because the collected filters all
+   evaluate the last criterion *)
+Theorem C17_wkc_filter_conjunction_partial : forall ls impl qs r, (List.length (relevant qs) <= 1)%nat -> wkc_render_get ls impl qs = Ok r ->
+  forall l, In l r <-> In l (ls ++ impl_info_links impl) /\ forall k v, In (k, v) (relevant qs) -> Matches k v l.
+Proof. exact wkc_conjunction_at_most_one. Qed.
+Print Assumptions C17_wkc_filter_conjunction_partial.
+Theorem C17_wkc_never_fails_partial : forall ls impl qs, (List.length (relevant qs) <= 1)%nat -> exists r, wkc_render_get ls impl qs = Ok r.
+Proof. exact wkc_total_at_most_one. Qed.
+Print Assumptions C17_wkc_never_fails_partial.
+(* what the code does instead, when all criteria take the same branch (rt/if/ct/rel | href | other): only the LAST criterion counts *)
+Theorem C17_wkc_several_criteria_only_last_applies : forall ls impl qs rel k v, relevant qs = rel ++ [(k, v)] ->
+  Forall (fun kv : string * string => kind_of (fst kv) = kind_of k) rel ->
+  wkc_render_get ls impl qs = Ok (filter_links k v (ls ++ impl_info_links impl)).
+Proof. exact wkc_several_same_kind_is_last. Qed.
+Print Assumptions C17_wkc_several_criteria_only_last_applies.
+Example C17_wkc_filter_conjunction_refuted :
+  let r1 := ("/r1", [("rt", Some "foo"); ("if", Some "i1")])%string in
+  let r2 := ("/r2", [("rt", Some "bar"); ("if", Some "i1")])%string in
+  let r3 := ("/r3", [("rt", Some "foo"); ("if", Some "i2")])%string in
+  wkc_render_get [r1; r2; r3] None ["rt=foo"; "if=i1"]%string = Ok [r1; r2] /\ link_matches "rt" "foo" r2 = false /\
+  wkc_render_get [r1; r2; r3] None ["rt=fo*"; "href=/r1"]%string = Ok [] /\ (link_matches "rt" "fo*" r1 && link_matches "href" "/r1" r1 = true) /\
+  wkc_render_get [r1; r2; r3] None ["href=/r1"; "rt=fo*"]%string = Raise AttributeError.
+Proof. vm_compute. repeat split. Qed.
+
+(* at request level: a request routed to the WKC resource answers the (filtered) listing of the root *)
+Theorem C17_request_to_wkc : forall pipe root m qs impl ls, uri_path_abbrev m = None ->
+  Route root (uri_path m) (TgtRes (RWkc impl)) -> get_resources_as_linkheader root = Some ls ->
+  request pipe root m qs = links_result (wkc_render_get ls impl qs).
+Proof. exact request_wkc. Qed.
+Print Assumptions C17_request_to_wkc.
+Theorem C17_request_to_wkc_single_filter : forall pipe root m qs impl ls k v, uri_path_abbrev m = None ->
+  Route root (uri_path m) (TgtRes (RWkc impl)) -> get_resources_as_linkheader root = Some ls -> relevant qs = [(k, v)] ->
+  request pipe root m qs = links_result (Ok (filter_links k v (ls ++ impl_info_links impl))).
+Proof. exact request_wkc_single. Qed.
+Print Assumptions C17_request_to_wkc_single_filter.
 
 (* the four former findings (fixed: C17:filter-crash-valueless-attribute, -single-valued-attr-by-character,
    -empty-pattern-matches-missing-attribute, -crash-python-attribute-name), now positive *)
@@ -300,7 +379,7 @@ Proof.
     by (intros p t; apply (render_route ex_tree false (new_request p None) eq_refl)).
   repeat split; try (apply H; vm_compute; reflexivity); intros t Ht; apply H in Ht; vm_compute in Ht; discriminate.
 Qed.
-(* O2: a sub-site registered at the empty path is never consulted — the relation (and the code) say NON-EMPTY proper prefix *)
+(* O2 (now finding C17:empty-prefix-subsite-ignored): a sub-site registered at the empty path is never consulted by the code's relation *)
 Example C17_O2_empty_path_subsite_unreachable :
   forall t, ~ Route (NSite [] [([], NSite [(["x"%string], RHandler 1 (Some []))] [])]) ["x"%string] t.
 Proof.
@@ -322,9 +401,9 @@ Qed.
 Example C17_history_nonvacuous :
   snd (run (NSite [] [])
         [OAdd [] ["s"%string] TSite; OAdd [["s"%string]] ["r"%string] (TRes (RHandler 7 (Some [])));
-         ORequest true (new_request ["s"; "r"]%string None) None;
+         ORequest true (new_request ["s"; "r"]%string None) [];
          ORemove [["s"%string]] ["r"%string];
-         ORequest true (new_request ["s"; "r"]%string None) None;
+         ORequest true (new_request ["s"; "r"]%string None) [];
          ORemove [] ["nope"%string]])
   = [RDone; RDone; RHandled 7 [] (Some ["s"; "r"]%string) (Ok ["s"; "r"]%string); RDone; RExn NotFound; RExn KeyError].
 Proof. vm_compute. reflexivity. Qed.
